@@ -206,7 +206,7 @@ def extra_engines(tier, seed, args):
     hs = ['directive_type_table'] if tier == 'quick' else ['directive_type_table', 'detect_from_matches_g1_6', 'stub_find_equiv']
     if not hs or getattr(args, 'only', None):
         return {'inconclusive': [], 'violations': [], 'evidence': None}
-    return kani.extra(hs, 300 if tier == 'quick' else 1500, 'DirectiveType::try_from name table on <=8 ASCII bytes; detect_from == G1 on every ASCII line of <=6 bytes')
+    return kani.extra(hs, 600 if tier == 'quick' else 2400, 'DirectiveType::try_from name table on <=8 ASCII bytes; detect_from == G1 on every ASCII line of <=6 bytes')
 
 
 def kani_replay(v):
